@@ -404,14 +404,14 @@ def replay(cex):
             except Exception as e:
                 bad.append(f"by_group_ci[{k}] lacks {key}: {e}")
                 continue
-            if abs(got - want) > 1e-9 * max(1, abs(want)):
+            if math.isnan(got) != math.isnan(want) or abs(got - want) > 1e-9 * max(1, abs(want)):
                 bad.append(f"by_group_ci[q={qq}][{key}] = {got}, quantile of resample values {per} is {want}")
-            if abs(gc - c) > 1e-9 * max(1, abs(c)):
+            if math.isnan(gc) or abs(gc - c) > 1e-9 * max(1, abs(c)):
                 bad.append(f"constant metric quantile {gc} != {c}")
         if ctrl is None:
             per = [sum(p[r] for r in vec) / len(vec) for vec in draw]
             got = float(mf.overall_ci[k]["mp"])
-            if abs(got - float(np.quantile(per, qq))) > 1e-9 * max(1, abs(got)):
+            if math.isnan(got) or abs(got - float(np.quantile(per, qq))) > 1e-9 * max(1, abs(got)):
                 bad.append(f"overall_ci[q={qq}].mp = {got}, expected {float(np.quantile(per, qq))}")
             if float(mf.overall_ci[k]["cnt"]) != n:
                 bad.append(f"overall count at q={qq} is {float(mf.overall_ci[k]['cnt'])}, not {n}")
